@@ -13,7 +13,7 @@ EXPLANATION = ('Structural necessary conditions of C10: (R10.1) every record tha
                'sync_data, and flush requests are answered only after it; (R10.5) single ordered writer; (R10.6) restore keeps outcomes, does not '
                'resubmit completed tasks and counts each restored outcome once.')
 NOT_DECIDED = ['equality of restored and pre-crash state over all histories and cut points (relational, value-level)']
-RELATED = {'C03': ['R03.5'], 'C06': ['R06.5', 'R06.8'], 'C07': ['R07.6', 'R07.7', 'R07.8'], 'C11': ['R11.1', 'R11.2']}
+RELATED = {'C03': ['R03.5'], 'C06': ['R06.5', 'R06.8'], 'C07': ['R07.6', 'R07.7', 'R07.8'], 'C11': ['R11.1', 'R11.2'], 'C12': ['R12.5'], 'C13': ['R13.2~check_termination|on_job_completed|handle_job_close']}
 ASSUMPTIONS = ['bincode framing: a record is either fully present or detected as UnexpectedEof']
 OPTION = 'core::option::Option'
 CLIENT = HQ + 'client::'
